@@ -183,21 +183,21 @@ func drawCase(t *rapid.T, src []byte) Case {
 
 func TestSoup(t *testing.T) {
 	g := lex.Soup(lex.XGoLexeme(), 0, 40)
-	vk.R.Rapid(t, 1, 40000, 1200000, func(t *rapid.T) {
+	vk.R.Rapid(t, 1, 80000, 1200000, func(t *rapid.T) {
 		run(t, drawCase(t, []byte(g.Draw(t, "src"))), "src=soup")
 	})
 }
 
 func TestHostile(t *testing.T) {
 	g := lex.Hostile()
-	vk.R.Rapid(t, 2, 20000, 500000, func(t *rapid.T) {
+	vk.R.Rapid(t, 2, 40000, 500000, func(t *rapid.T) {
 		run(t, drawCase(t, []byte(g.Draw(t, "src"))), "src=hostile")
 	})
 }
 
 func TestCorpusMutants(t *testing.T) {
 	g := lex.CorpusMutant()
-	vk.R.Rapid(t, 3, 12000, 400000, func(t *rapid.T) {
+	vk.R.Rapid(t, 3, 25000, 400000, func(t *rapid.T) {
 		run(t, drawCase(t, g.Draw(t, "src")), "src=corpus-mutant")
 	})
 }
